@@ -1,6 +1,7 @@
 import McpModel.Conn.MonCallsStep
 import McpModel.Conn.MonReqsStep
 import McpModel.Conn.MonCancel
+import McpModel.Conn.MonBad
 /-!
 Under `MonRel` every check of the monitors returns `none` on the model's own observation.
 -/
@@ -255,6 +256,53 @@ theorem chkRegAfterRx_none {m : Mon} {s : St} (R : MonRx m s) : chkRegAfterRx m 
     have : (obsOf s).oc.isEmpty = true := by simp [obsOf, sortNat, sortBy_isEmpty, hoc]
     simp [this]
   · simp [hr]
+
+/-! ### C01: a returned call is no longer registered; the marshalling error only for bad calls -/
+
+theorem chkStillRegistered_none {s : St} (i : Inv4 s) : chkStillRegistered (obsOf s) = none := by
+  unfold chkStillRegistered
+  rw [List.findSome?_eq_none_iff]
+  intro t ht
+  cases t with
+  | unotif k r => rfl
+  | call n rt =>
+    have hf := (mem_fins_call s n rt).mp ht
+    obtain ⟨c, res, hc, hpc, hres, rfl⟩ := callFin_some hf
+    have o := i.base.base.base.calls.ok n c hc
+    have hready := (o.fin hpc).2
+    have hnot : n ∉ s.outCalls := by
+      intro hm
+      have := (o.reg.mp hm).2
+      simp [this] at hready
+    have hno : n ∉ (obsOf s).oc := by simpa [obsOf, sortNat, mem_sortBy] using hnot
+    simp [hno]
+
+theorem resTok_marshal {r : Res} (h : resTok r = .marshal) : r = .err .marshal := by
+  cases r with
+  | resp p => simp [resTok] at h
+  | err e => cases e <;> simp [resTok, errTok] at h ⊢
+
+theorem chkMarshal_none {m : Mon} {s : St} (B : MonBad m s) (i : Inv4 s) : chkMarshal m (obsOf s) = none := by
+  unfold chkMarshal
+  rw [List.findSome?_eq_none_iff]
+  intro t ht
+  cases t with
+  | unotif k r => rfl
+  | call n rt =>
+    have hf := (mem_fins_call s n rt).mp ht
+    obtain ⟨c, res, hc, hpc, hres, rfl⟩ := callFin_some hf
+    cases hrt : resTok res with
+    | marshal =>
+      have hr := resTok_marshal hrt
+      subst hr
+      have o := i.base.base.base.calls.ok n c hc
+      have hready : c.ready = some (.err .marshal) := by
+        rcases (o.result _ hres).2 with h | ⟨h, _⟩
+        · exact h
+        · cases h
+      have := B.bad n c hc (Or.inl hready)
+      simp [this]
+    | _ => rfl
 
 /-! ### requests: looking up the model's side of a monitor entry -/
 
@@ -560,6 +608,9 @@ theorem monrel_step {m : Mon} {s s' : St} {l : Label} (R : MonRel m s) (i : Inv4
     rw [hbc]; exact ⟨R.calls.ncalls, R.calls.sent, R.calls.sentRR, R.calls.ctxd, R.calls.late⟩
   have Rr : MonReqs (m.bookCancel (evOf l)) s := by
     rw [hbc]; exact ⟨R.reqs.nreqs, R.reqs.idx, R.reqs.rx, R.reqs.bc, R.reqs.bn, R.reqs.bk, R.reqs.bw, R.reqs.bx, R.reqs.req⟩
+  have Rb : MonBad (m.bookCancel (evOf l)) s := by
+    rw [hbc]; exact ⟨R.bad.bad⟩
+  have mb1 : MonBad ((m.bookCancel (evOf l)).book m.prev (evOf l)) (settle s0) := monbad_step Rb Rc h
   have Rx : MonRx (m.bookCancel (evOf l)) s := by
     rw [hbc]; exact ⟨R.rx.seen, R.rx.none⟩
   have mc1 : MonCalls ((m.bookCancel (evOf l)).book m.prev (evOf l)) (settle s0) := moncalls_step Rc i (prev_done hp) h
@@ -571,11 +622,11 @@ theorem monrel_step {m : Mon} {s s' : St} {l : Label} (R : MonRel m s) (i : Inv4
   have C3 : MonCancel ((m.bookCancel (evOf l)).book m.prev (evOf l)) (settle s0) := by
     obtain ⟨h1, h2⟩ := book_cancelAsked (m.bookCancel (evOf l)) m.prev (evOf l)
     exact ⟨fun id => by rw [h1]; exact C1.asked id, by rw [h2]; exact C1.un⟩
-  refine ⟨?_, ?_, ?_, ?_, ?_, ?_⟩
+  refine ⟨?_, ?_, ?_, ?_, ?_, ?_, ?_⟩
   · show chkAll ((m.bookCancel (evOf l)).book m.prev (evOf l)) m.prev (obsOf (settle s0)) (evOf l) = none
     unfold chkAll
     rw [chkFinal_none hp h, chkOwn_none mc1 i', chkPanic_none, chkBlocked_none mc1 i', chkLate_none mc1 i',
-      chkRegAfterRx_none mx1, chkAnswer_none mr1 i', chkOrder_none hp Rr i h0, chkCancelAsked_none C3, chkCancelX_none mr1 i', chkEv_none hp i h mr1 i',
+      chkRegAfterRx_none mx1, chkStillRegistered_none i', chkMarshal_none mb1 i', chkAnswer_none mr1 i', chkOrder_none hp Rr i h0, chkCancelAsked_none C3, chkCancelX_none mr1 i', chkEv_none hp i h mr1 i',
       chkTc_none i', chkOd_none i', chkClosedIdle_none hp h, chkDoneIdle_none i', chkLateDispatch_none mr1 i']
     rfl
   · exact Or.inl rfl
@@ -583,6 +634,7 @@ theorem monrel_step {m : Mon} {s s' : St} {l : Label} (R : MonRel m s) (i : Inv4
   · exact monreqs_mark mr1
   · exact monrx_mark mx1 _
   · exact C2
+  · exact monbad_mark mb1 _
 
 /-- No clause fires on the model's own observation trace, from any related pair of states. -/
 theorem runMonFrom_traceFrom (ls : List Label) : ∀ (m : Mon) (s : St), MonRel m s → Inv4 s →
